@@ -80,6 +80,13 @@ func c19GenConfig(t *verifrt.Tape, sc *c19Scenario, writer string) *Config {
 		fix(&cfg.Rules[i])
 	}
 	cfg.DumpTX = false
+	// default actions with logging flags: every rule states its own flags after
+	// them, so the defaults must never decide
+	for _, ph := range []int{1, 2, 5} {
+		if t.Draw(3) == 0 {
+			cfg.Lines = append(cfg.Lines, fmt.Sprintf("SecDefaultAction \"phase:%d,pass,%s\"", ph, pick(t, []string{"log,auditlog", "nolog", "nolog,auditlog", "log,noauditlog"})))
+		}
+	}
 	cfg.ReqAccess = true
 	cfg.RespAccess = t.Draw(2) == 0
 	sc.Engine = pick(t, []string{"On", "RelevantOnly", "RelevantOnly", "Off"})
